@@ -1,5 +1,5 @@
 (* C08 - top-level lemmas about parse_iso (the statements Props/C08.v exports). *)
-From Coq Require Import List ZArith NArith Bool Lia ZifyBool Psatz.
+From Coq Require Import List ZArith NArith Bool Lia ZifyBool.
 From Orso Require Import Base.Civil Gen.C08_Tables Model.C08.
 From Orso Require Import Proofs.C08_Epoch Proofs.C08_Str Proofs.C08_Utf8 Proofs.C08_Strip Proofs.C08_Core Proofs.C08_Render.
 Import ListNotations.
